@@ -125,6 +125,15 @@ func (x *Exec) strLitTerms() []*Term {
 func (x *Exec) vcTerms() []*Term {
 	var ts []*Term
 	ts = append(ts, x.facts...)
+	lastEpoch := -1
+	for i := len(x.obls) - 1; i >= 0; i-- {
+		// the longest fact list of every epoch (obligations are in generation order)
+		o := x.obls[i]
+		if o.Epoch != lastEpoch && o.Epoch != x.epoch {
+			ts = append(ts, o.Facts...)
+			lastEpoch = o.Epoch
+		}
+	}
 	for _, o := range x.obls {
 		ts = append(ts, o.PC, o.Goal)
 	}
@@ -177,6 +186,8 @@ func (x *Exec) incrementalScriptFor4(timeoutMs int, prop, class string, only, sk
 	em.Define(ts)
 	var order []*Obligation
 	nf := 0
+	curEpoch := 0
+	sb.WriteString("(push 1)\n")
 	for _, o := range x.obls {
 		if o.Builtin {
 			continue
@@ -193,8 +204,14 @@ func (x *Exec) incrementalScriptFor4(timeoutMs int, prop, class string, only, sk
 		if only != nil && !only[o.Name] && o.KFKey == "" && !only["kf:"+stripOrdinal(o.Name)] && !only["kf:"+o.Name] {
 			continue
 		}
-		for ; nf < o.NFacts; nf++ {
-			sb.WriteString("(assert " + em.Str(x.facts[nf]) + ")\n")
+		if o.Epoch != curEpoch {
+			// facts are scoped: a new epoch starts from its own fact list
+			sb.WriteString("(pop 1)\n(push 1)\n")
+			curEpoch = o.Epoch
+			nf = 0
+		}
+		for ; nf < len(o.Facts); nf++ {
+			sb.WriteString("(assert " + em.Str(o.Facts[nf]) + ")\n")
 		}
 		sb.WriteString("(push 1)\n")
 		sb.WriteString("(assert (not " + em.Str(x.tt.Implies(o.PC, o.Goal)) + "))\n")
@@ -217,7 +234,7 @@ func (x *Exec) standaloneScript(o *Obligation, solver string, model bool) string
 	}
 	sb.WriteString(x.header(solver))
 	neg := x.tt.Not(x.tt.Implies(o.PC, o.Goal))
-	ts := append(append([]*Term{}, x.facts[:o.NFacts]...), neg)
+	ts := append(append([]*Term{}, o.Facts...), neg)
 	em := NewEmitter(x.tt, &sb)
 	for n := range preludeDefined {
 		em.decl["f:"+n] = true
@@ -226,7 +243,7 @@ func (x *Exec) standaloneScript(o *Obligation, solver string, model bool) string
 	em.Declare(append(append([]*Term{}, ts...), x.strLitTerms()...))
 	sb.WriteString(x.globalAxioms())
 	em.Define(ts)
-	for _, f := range x.facts[:o.NFacts] {
+	for _, f := range o.Facts {
 		sb.WriteString("(assert " + em.Str(f) + ")\n")
 	}
 	sb.WriteString("(assert " + em.Str(neg) + ")\n")
@@ -611,7 +628,7 @@ func (x *Exec) explain(o *Obligation, dir string) {
 		conj = append(conj, t)
 	}
 	flat(o.Goal, nil)
-	if len(conj) < 2 {
+	if len(conj) < 2 && os.Getenv("GOVC_EXPLAIN") != "2" {
 		return
 	}
 	for i, c := range conj {
